@@ -76,6 +76,11 @@ def cases(tier, seed):
         for cls in ("spike_vs_flat", "spike_vs_flat_T"):
             out.append({"kind": "defs", "cls": "defs:" + cls, "entry": cls, "idx": idx, "seed": seed, "struct": True, "maxd": 8, "dims": list(dims)})
             idx += 1
+    for dims in ([(8, 8), (9, 12), (12, 9), (16, 16), (8, 20), (3, 5)] if tier == "quick" else [(8, 8), (9, 12), (12, 9), (16, 16), (8, 20), (3, 5), (20, 8), (17, 33), (33, 17), (32, 32), (5, 3)]):
+        for cls in ("mixed_type_lines", "mixed_type_lines_T"):
+            for rep in range(2 if tier == "quick" else 6):
+                out.append({"kind": "defs", "cls": "defs:" + cls, "entry": cls, "idx": idx, "seed": seed, "struct": True, "maxd": 8, "dims": list(dims)})
+                idx += 1
     for rep in range(24 if tier == "quick" else 600):
         out.append({"kind": "ineq", "cls": "ineq", "idx": rep, "seed": seed, "maxd": 6 if tier == "quick" else 12})
     out.append({"kind": "ords", "cls": "ords", "seed": seed})
